@@ -43,7 +43,7 @@ def run(tier, seed, replay=None):
     # every advertisement event of every node of those meshes (received, local open/close, relay targets) against AdsCore
     nt = nodetrace.validate(wd, [mhooks], timeout=2400)
     for d in nt["diffs"]:
-        if d["event"] in ("ad_recv", "ad_local", "ad_withdraw", "flood"):
+        if d["event"] in ("ad_recv", "ad_local", "ad_withdraw", "ad_send", "flood"):
             v.violation("C18:%s:%s" % (d["event"], "+".join(d["what"])),
                         "node event '%s' is not a behaviour of AdsCore/NodeTrace: %s; event %s" % (d["event"], ",".join(d["what"]), str(d["context"][-1])[:500]),
                         {"instance": d["instance"], "context": d["context"]})
